@@ -35,7 +35,7 @@ type SessionLifespanConfig struct {
 	NotBeforeField string        `mapstructure:"not_before"`
 	NotAfterField  string        `mapstructure:"not_after"`
 	TimeFormat     string        `mapstructure:"time_format"`
-	ValidityLeeway time.Duration `mapstructure:"validity_leeway"`
+	ValidityLeeway time.Duration `mapstructure:"validity_leeway" validate:"gte=0"`
 }
 
 func (s *SessionLifespanConfig) CreateSessionLifespan(rawData []byte) (*SessionLifespan, error) {
